@@ -86,7 +86,7 @@ def conc_script(rng, k, nstreams, plain, total, failevery=0):
         left -= p * numbered
     base = rng.choice([0, 60000, 0xFFFF0000 + rng.randrange(65536), rng.randrange(2 ** 32)])
     return {"level": "conc", "ext": 0, "base": base, "streams": streams, "steps": [], "assign": assign, "batches": batches,
-            "failevery": failevery}
+            "failevery": failevery, "twin": rng.random() < 0.4}     # (twin: another interceptor of the same factory writes throughout)
 
 
 def nontrivial(evs):
